@@ -840,6 +840,9 @@ func c19ReadTrace(path string) map[int64]c19BlockTrace {
 
 func c19Child(dir string, env map[string]string) (string, error) {
 	exe, _ := os.Executable()
+	if e := env["VERIF_C19_EXE"]; e != "" {
+		exe = e
+	}
 	cmd := exec.Command(exe, "C19")
 	cmd.Env = os.Environ()
 	for k, v := range env {
@@ -901,6 +904,12 @@ func runC19(c *vk.Ctx) {
 			{"replica-p1", env("replica", "replica-p1", map[string]string{"GOMAXPROCS": "1", "GOGC": "20"})},
 			{"replica-p4", env("replica", "replica-p4", map[string]string{"GOMAXPROCS": "4", "GOGC": "400"})},
 			{"replica-p16", env("replica", "replica-p16", map[string]string{"GOMAXPROCS": "16", "GOGC": "off"})},
+		}
+		if sb := os.Getenv("VERIF_SKEW_BIN"); sb != "" && !raceMode {
+			// a replica whose wall clock (time.Now) reads three years earlier than everybody else's, i.e. before the
+			// chain's genesis time: any dependence of results on the wall clock shows up as a divergence
+			jobs = append(jobs, job{"replica-skew", env("replica", "replica-skew", map[string]string{"GOMAXPROCS": "2", "VERIF_C19_EXE": sb, "VERIF_TIME_SKEW_SEC": "-94608000"})})
+			c.Count("skewed_clock_replicas", 1)
 		}
 		exports, _ := filepath.Glob(filepath.Join(dir, "export-*.json"))
 		sort.Strings(exports)
